@@ -570,7 +570,7 @@ func lifecycle(w *hx.W, rng *rand.Rand, rounds int) {
 func body(w *hx.W) {
 	defer runtime.GOMAXPROCS(runtime.GOMAXPROCS(0))
 	rng := w.Rand("c14")
-	n := w.Pick(700, 20000)
+	n := w.Pick(700, 6000)
 	for i := 0; i < n && hangs < 3; i++ {
 		cfg := runCfg{sessions: 2 + rng.Intn(7), ops: 20 + rng.Intn(25), procs: []int{1, 2, 4, 16}[rng.Intn(4)], yield: []int{0, 50, 200, 500}[rng.Intn(4)], boxes: 2 + rng.Intn(2),
 			profile: []string{"mixed", "mixed", "copy-storm", "namespace", "mixed", "stalled-idler"}[rng.Intn(6)]}
@@ -590,7 +590,7 @@ func body(w *hx.W) {
 		w.Class(fmt.Sprintf("%s/sessions=%d/procs=%d/yield=%d", cfg.profile, cfg.sessions, cfg.procs, cfg.yield))
 	}
 	t0 := time.Now()
-	lifecycle(w, rng, w.Pick(12, 150))
+	lifecycle(w, rng, w.Pick(12, 60))
 	w.Metric("server_lifecycle_ms", time.Since(t0).Milliseconds())
 	w.Metric("distinct_interleaving_fingerprints", int64(len(fingerprints)))
 	st := lockmon.Snapshot()
